@@ -576,7 +576,7 @@ def run_kernels(run, tasks, quick_cap=400):
                 return g
             gens[(rel, fn)] = mk(gen)
     run.c_proofs([(rel, fn) for rel, fn, _ in tasks], consts=fdc_consts(), generators=gens,
-                 timeout_ms=20000 if run.tier == 'quick' else 90000)
+                 timeout_ms=30000 if run.tier == 'quick' else 120000)
     for a in BASE_ASSUMPTIONS:
         if a not in run.assumptions:
             run.assumptions.append(a)
